@@ -30,9 +30,10 @@ E2_RULES = [
     ("value-with-trailing-comment", lambda s, d: "# c" in s),
     ("quoted-vs-bare-name", lambda s, d: "'\"a\"'" in s),
     ("scope-layer-on-call-argument", lambda s, d: re.search(r"(^|/)call/[a-z0-9]+:|c09/(call|lamcall)/", s.split("|")[1] + ":") is not None and "@" in s.split("|", 2)[2]),
-    ("let-not-adjacent-to-target", lambda s, d: re.search(r"let[12]/(lamf|lam|with|assert|paren|call)/|c09/\w+/\d/\w+/outer", s) is not None and "@" in s.split("|", 2)[2]),
+    ("let-not-adjacent-to-target", lambda s, d: re.search(r"let(1|2|ap|2c)/(lamf|lam|with|assert|paren|call)/|c09/\w+/\d/\w+/outer", s) is not None and "@" in s.split("|", 2)[2]),
     ("scope-selector-falls-back-to-body", lambda s, d: re.search(r"set '(\w+)' .* ; (set|rm) '@\1'", s) is not None),
-    ("mixed-explicit-and-attrpath", lambda s, d: "/mixed:" in s or "|mixed:" in s),
+    ("mixed-explicit-and-attrpath", lambda s, d: re.search(r"[/|]mixed(3|_rev)?:", s) is not None),
+    ("layer-prune-drops-comment-between-layers", lambda s, d: "let2c" in s),
     ("inherited-name", lambda s, d: "set 'q'" in s),
     ("with-wrapper-scope-layout", lambda s, d: re.search(r"(^|[|/])with/", s) is not None),
     ("attrpath-order-cache-stale", lambda s, d: s.split("|")[1] in ("attrpath", "attrpath2", "deep", "scoped-attrpath", "lambda-attrpath")),
@@ -45,6 +46,7 @@ E2_META = {
     "let-not-adjacent-to-target": ("a `let` separated from the attribute set by a wrapper (lambda/with/assert/parentheses/call) is not seen as a scope layer", "cli/manipulations.py:_collect_scope_layers only looks at layers lifted onto the target set itself"),
     "scope-selector-falls-back-to-body": ("`set @name` with no let layer edits the body binding `name` when it exists instead of creating a layer", "cli/manipulations.py:set_value shortcut `_path_exists_in_attrset`"),
     "mixed-explicit-and-attrpath": ("documents defining a name both explicitly and through attrpaths: edits create duplicates / cannot find members", "set.py:_merge_attrpath_bindings keeps both bindings; path walk only follows one of them"),
+    "layer-prune-drops-comment-between-layers": ("pruning an outer let layer drops the comment that stood between its `in` and the next `let`", "cli/manipulations.py:_write_scope_layers / remove_value restore body trivia of the removed layer only when no layer is left"),
     "inherited-name": ("`set` on a name that is only inherited adds a second definition", "cli/manipulations.py:_find_binding ignores Inherit entries"),
     "with-wrapper-scope-layout": ("creating/pruning a let layer under `with p;` rewrites the line break after `with p;` and drops the final newline", "WithStatement.rebuild chooses inline vs multi-line from a preview; remove_value strips the trailing newline when the last layer is pruned"),
     "attrpath-order-cache-stale": ("mapping operations on attrpath-derived bindings leave the rebuilt text unchanged", "AttributeSet.__setitem__/__delitem__ (and Scope) update `values` but not the `attrpath_order` render cache"),
